@@ -230,7 +230,8 @@ impl FileManager {
             for i in 0..file_info.field_lists.len() {
                 let field_list = &file_info.field_lists[i];
                 for field in field_list {
-                    if field.name == variable_name {
+                    // variable names are case insensitive
+                    if field.name.eq_ignore_ascii_case(variable_name) {
                         // found it
                         file_info.current_field_list_index = Some(i);
                         return Ok(());
